@@ -103,13 +103,23 @@ struct World {
 }
 
 thread_local! {
+    /// consistency level of the nodes the worlds of this thread are built with (set per configuration)
+    static CAUSAL: std::cell::Cell<bool> = std::cell::Cell::new(false);
     static RT: tokio::runtime::Runtime = tokio::runtime::Builder::new_current_thread().enable_time().build().unwrap();
+}
+
+fn level() -> ConsistencyLevel {
+    if CAUSAL.with(|c| c.get()) {
+        ConsistencyLevel::Causal
+    } else {
+        ConsistencyLevel::Eventual
+    }
 }
 
 impl World {
     fn new(n: usize) -> Self {
         World {
-            nodes: (0..n).map(|i| ReplicatedShardActor::spawn(ReplicaId::new(i as u64 + 1), ConsistencyLevel::Eventual, 0)).collect(),
+            nodes: (0..n).map(|i| ReplicatedShardActor::spawn(ReplicaId::new(i as u64 + 1), level(), 0)).collect(),
             deltas: Vec::new(),
             knows: vec![BTreeSet::new(); n],
             delivered: BTreeSet::new(),
@@ -179,7 +189,7 @@ impl World {
                 self.knows[*n].insert(*m);
             }
             Ev::RestartSync(n, i) => {
-                self.nodes[*n] = ReplicatedShardActor::spawn(ReplicaId::new(*n as u64 + 1), ConsistencyLevel::Eventual, 0);
+                self.nodes[*n] = ReplicatedShardActor::spawn(ReplicaId::new(*n as u64 + 1), level(), 0);
                 self.knows[*n].clear();
                 self.model[*n].clear();
                 self.restarted.insert(*n);
@@ -300,7 +310,10 @@ fn op_names(evs: &[Ev]) -> String {
 }
 
 /// Replay history + event; Ok(fingerprint) | Err(violation) | disabled (None)
+static CAUSAL_CONFIG: std::sync::atomic::AtomicBool = std::sync::atomic::AtomicBool::new(false);
+
 fn run(nodes: usize, max_ops: usize, alpha: &[Ev], hist: &[u16], ev: u16) -> Option<Result<String, (String, String)>> {
+    CAUSAL.with(|c| c.set(CAUSAL_CONFIG.load(std::sync::atomic::Ordering::Relaxed)));
     RT.with(|rt| {
         rt.block_on(async {
             let mut w = World::new(nodes);
@@ -467,6 +480,9 @@ fn main() {
         // the third configuration (8 core operations) is the one that carries the restart-and-resync event in the quick tier
         vec![(2, 2, all_ops.clone(), 7), (2, 3, core_ops.clone(), 6), (2, 2, core_ops.clone(), 7)]
     };
+    // the last configuration of each tier is run a second time on nodes with ConsistencyLevel::Causal (vector clocks)
+    let causal_from = configs.len();
+    let configs: Vec<(usize, usize, Vec<usize>, usize)> = configs.iter().cloned().chain(std::iter::once(if thorough { (2, 3, all_ops.clone(), 8) } else { (2, 2, core_ops.clone(), 7) })).collect();
     if let Some(path) = &args.replay {
         let r = vh::report::load_replay(path);
         if r["sweep"] == json!(true) {
@@ -538,6 +554,7 @@ fn main() {
         }
         let nodes = r["nodes"].as_u64().unwrap() as usize;
         let ops: Vec<usize> = r["ops"].as_array().unwrap().iter().map(|x| x.as_u64().unwrap() as usize).collect();
+        CAUSAL_CONFIG.store(r["causal"].as_bool().unwrap_or(false), std::sync::atomic::Ordering::Relaxed);
         let alpha = alphabet(nodes, &ops, r["with_restart"].as_bool().unwrap_or(false));
         let hist: Vec<u16> = r["history"].as_array().unwrap().iter().map(|x| x.as_u64().unwrap() as u16).collect();
         let ev = r["event"].as_u64().unwrap() as u16;
@@ -557,7 +574,9 @@ fn main() {
     let mut reports = Vec::new();
     let (mut states, mut transitions) = (0u64, 0u64);
     let mut exhaustive = true;
-    for (nodes, max_ops, ops, depth) in &configs {
+    for (ci, (nodes, max_ops, ops, depth)) in configs.iter().enumerate() {
+        let causal = ci >= causal_from;
+        CAUSAL_CONFIG.store(causal, std::sync::atomic::Ordering::Relaxed);
         let with_restart = thorough || (ops.len() == core_ops.len() && *max_ops == 2);
         let alpha = alphabet(*nodes, ops, with_restart);
         let mut bfs = Bfs::new(alpha.len(), *depth);
@@ -570,7 +589,7 @@ fn main() {
             }
             Some(Ok(fp)) => Some(fp),
             Some(Err((sig, detail))) => {
-                rep.violation(sig, detail, json!({"nodes": nodes, "max_ops": max_ops, "ops": ops, "with_restart": with_restart, "history": hist, "event": ev,
+                rep.violation(if causal { format!("{sig} causal") } else { sig }, detail, json!({"nodes": nodes, "max_ops": max_ops, "ops": ops, "with_restart": with_restart, "causal": causal, "history": hist, "event": ev,
                     "shown": hist.iter().map(|h| show_ev(&alpha[*h as usize])).chain(std::iter::once(show_ev(&alpha[ev as usize]))).collect::<Vec<_>>()}));
                 None
             }
@@ -587,8 +606,9 @@ fn main() {
         }
         reports.push(json!({"nodes": nodes, "client_ops_bound": max_ops, "op_alphabet": ops.iter().map(|o| OPS[*o]).collect::<Vec<_>>(), "depth_bound": depth,
             "depth_completed": stats.depth_completed, "states": stats.states, "enabled_transitions": stats.transitions - dis,
-            "violating_transitions": stats.pruned_transitions - dis, "truncated_by_time_cap": stats.truncated, "frontier_sizes": stats.frontier_sizes, "restart_and_resync_event": with_restart}));
+            "violating_transitions": stats.pruned_transitions - dis, "truncated_by_time_cap": stats.truncated, "frontier_sizes": stats.frontier_sizes, "restart_and_resync_event": with_restart, "consistency_level": if causal { "Causal" } else { "Eventual" }}));
     }
+    CAUSAL_CONFIG.store(false, std::sync::atomic::Ordering::Relaxed);
     // ---- part (c): whole nodes exchanging real gossip messages ----
     let cl_all: Vec<usize> = (0..cluster::CL_OPS.len()).collect();
     let cl_core: Vec<usize> = vec![0, 2, 3, 4, 5, 6];
